@@ -486,7 +486,7 @@ def run(ctx):
     # real SIGTERM is observed asynchronously, so for behaviours with a terminate the run with the recording kill
     # variable (exact order) is the one that is validated
     hasterm = set(b["id"] for b in withterm)
-    validate(ctx, [t for t in traces if t["id"] not in hasterm] + traces2, 260000 if ctx.thorough else 60000)
+    validate(ctx, [t for t in traces if t["id"] not in hasterm] + traces2, 260000 if ctx.thorough else 30000)
 
     # 6. the steps on the real binary (real instance: admin API, listeners, process exit) and a real child
     run_e2e(ctx, behs)
